@@ -16,8 +16,8 @@ The copies the code makes (two-column branch):
   `curext.ext_x = copy.copy(mm.ext_x)`, `curext.maxcase = maxcase`, `curext.mincase = mincase`
   (the new lists);
 * later calls: element writes into `curext.ext`, `curext.maxcase / mincase` and, in `_put_time`,
-  into `curext.ext_x` (`curext.ext_x = copy.copy(mm.ext_x)` — again a copy — when the accumulator
-  had none; NaN when the input has none);
+  into `curext.ext_x` (a NEW array `np.full(curext.ext.shape, nan)` when the accumulator had none,
+  since fix 19ddbb5; NaN when the input has none);
 * `form_extreme` / `init_extreme_cat` on top of that: `mx, mn, mx_x, mn_x` are new NaN arrays,
   `srs.ext = copy.deepcopy(oldcat.srs.ext)`, `srs.srs = {}` with new NaN arrays, and
   `_ext[Q] = np.fmax(_ext[Q], S)` rebinds the NEW dictionary's entry to a new array; `drminfo` is
@@ -83,8 +83,10 @@ def putTime (nanX : X) (h : Heap α X L) (c : CatRef) (mm : MmRef) (col : Nat) :
     Option (Heap α X L × CatRef) :=
   match mm.extx, c.extx with
   | some rx, none => do
+    -- the extrema found so far have no abscissae: a NEW all-NaN array, then the row takes `mm`'s
+    -- abscissa in this column only (fix 19ddbb5, finding F57; before: a copy of `mm`'s whole array)
     let xv ← h.xs[rx]?
-    let (h, r) := allocX h xv
+    let (h, r) := allocX h (setCol (nanX, nanX) col (getCol xv col))
     pure (h, { c with extx := some r })
   | some rx, some cx => do
     let xv ← h.xs[rx]?
